@@ -174,6 +174,7 @@ PROPS = {
         contracts=["contracts.options", "contracts.parse_html", "contracts.warnings"],
         flow=["checks.flow_exc:run"],
         harness=True,
+        harness_timeout={"quick": 1800, "thorough": 5400},
         explanation=(
             "Totality of the whole pipeline is NOT decidable by contracts on MyST alone (markdown-it, docutils transforms, "
             "Sphinx, Jinja and pygments are external).  What is decided: (1) PROVED (pyvc, all strings): the directive-option "
